@@ -181,3 +181,27 @@ PROPS["C03"] = {
     ],
     "min_nontrivial": {"quick": 5000, "thorough": 100000},
 }
+
+PROPS["C04"] = {
+    "level": "exploration",
+    "design_ref": "DESIGN.md §4.4",
+    "technique": "exhaustive enumeration of constant-bearing expression shapes (depth<=2) + rapid deeper trees; value+kind of ExpressionOptimizer output vs un-optimized parse vs reference evaluator, row and batch forms, and end-to-end rows",
+    "level_text": "Bounded-exhaustive exploration of the rewrite rules: every arithmetic shape of depth <= 2 over 9 constants of both kinds and 3 "
+                  "row-dependent leaves (all int/float operand-kind combinations, every (x op c1) op c2 chain), every constant comparison combined "
+                  "with row predicates through & and | on either side, constant calls, text chains; rapid adds deeper typed trees. Each text is parsed "
+                  "twice with Parser.Parse (which does not fold); one copy is rewritten with ExpressionOptimizer.Optimize. On every pair where the "
+                  "original evaluates without error the rewritten tree must evaluate to the same value of the same kind (Execute and ExecuteBatch); "
+                  "both are compared with the reference evaluator, and the full query through BuildPlan must return the reference rows.",
+    "level_note": "Trusted: reference evaluator (third leg only; the first two legs compare the engine's own evaluator before/after rewriting). "
+                  "Floats are exactly representable (k/4) and small so equality is exact; literal zero divisors are refused statically and skipped.",
+    "rule": "enumerated expressions placed as select field or inside a WHERE comparison (each emitted once) + rapid typed trees depth 1-4. "
+            "Non-trivial = the rewrite changed the rendered expression (String() differs) and the original evaluates on at least one pair; "
+            "distinct = distinct statements.",
+    "assumptions": COMMON_ASSUMPTIONS,
+    "legs": [
+        {"test": "TestC04Arith", "kind": "enum", "quick": {"shards": 4}, "thorough": {"shards": 16}},
+        {"test": "TestC04Bool", "kind": "enum", "quick": {"shards": 2}, "thorough": {"shards": 4}},
+        {"test": "TestC04Sampled", "kind": "rapid", "quick": {"checks": 3000, "shards": 2}, "thorough": {"checks": 100000, "shards": 12}},
+    ],
+    "min_nontrivial": {"quick": 5000, "thorough": 50000},
+}
